@@ -54,8 +54,12 @@ def gen_cases(rng, tier):
                 if not spec["params"]:
                     continue
                 p = rng.choice(spec["params"])
-                from .c09 import rand_value
-                op.update({"name": p["name"], "value": rand_value(rng, p, curN)})
+                from .c09 import rand_value, concat_event
+                ce = concat_event(rng, spec, curN) if rng.random() < 0.25 else None
+                if ce:
+                    op.update(ce)
+                else:
+                    op.update({"name": p["name"], "value": rand_value(rng, p, curN)})
             elif kind == "set_initial":
                 free = [key for key in ("T", "t0") if spec[key]["kind"] == "free"]
                 if free and rng.random() < 0.4:
@@ -140,9 +144,11 @@ def classify(case, v):
 def apply_shadow(shadow, op):
     k = op["op"]
     if k == "set_value":
-        for p in shadow["params"]:
-            if p["name"] == op["name"]:
-                p["value"] = op["value"]
+        pairs = zip(op["names"], op["values"]) if "names" in op else [(op["name"], op["value"])]
+        for name, value in pairs:
+            for p in shadow["params"]:
+                if p["name"] == name:
+                    p["value"] = value
     elif k == "set_initial":
         g_new = ({"target": op["name"], "kind": "expr", "mat": op["mat"]} if "mat" in op else
                  {"target": op["name"], "kind": "const", "val": op["value"]})
@@ -245,7 +251,8 @@ def run_case(case):
         try:
             if k in MUTATORS:
                 if k == "set_value":
-                    ocp.set_value(b.syms[op["name"]], build.param_value({"value": op["value"]}))
+                    from .c09 import do_set_value
+                    do_set_value(b, op)
                 elif k == "set_initial":
                     tgt = ocp.T if op["name"] == "T" else (ocp.t0 if op["name"] == "t0" else b.syms[op["name"]])
                     ocp.set_initial(tgt, b.ca_mat(op["mat"]) if "mat" in op else op["value"])
